@@ -34,6 +34,7 @@ _tool_claimed = False
 
 _ENVT = type(os.environ)
 ENV_CODES = {_ENVT.__setitem__.__code__: 'set', _ENVT.__delitem__.__code__: 'del'}
+ENV_READ_CODE = _ENVT.__getitem__.__code__     # get(), `in`, setdefault(), os.getenv() all end here
 
 TRIVIAL_BUILTIN_TYPES = (str, bytes, bytearray, dict, list, tuple, set, frozenset, int,
                          float, bool, complex, type(None), range, slice)
@@ -187,6 +188,7 @@ class Monitor(object):
         self.n = 0
         self.mutations = []          # of the touched variables
         self.other_mutations = []    # of any other environment variable
+        self.reads = []              # environment variables the code under test looked up, in order
         self.fired = None
         self.diverged = None
         self.active = False
@@ -296,6 +298,11 @@ class Monitor(object):
 
     def on_start(self, code, off):
         if not self.active:
+            return None
+        if code is ENV_READ_CODE:
+            key = sys._getframe(1).f_locals.get('key')
+            if isinstance(key, str) and key not in self.reads:
+                self.reads.append(key)
             return None
         op = ENV_CODES.get(code)
         if op is not None:
